@@ -54,7 +54,7 @@ func (c19ZeroChild) Capabilities() tally.Capabilities { return c19ZeroRec.Capabi
 func (c19ZeroChild) Flush()                           { c19ZeroRec.Flush() }
 
 func evSig(e mon.Event) string {
-	return fmt.Sprintf("%s name=%q tags=%s I=%d F=%#x lo=%v hi=%v loD=%d hiD=%d spec=%v", e.Kind, e.Name, mon.IdentKey("", e.Tags), e.I, e.F, e.Lo, e.Hi, e.LoD, e.HiD, e.Spec)
+	return fmt.Sprintf("%s name=%q tags=%s I=%d F=%#x lo=%v hi=%v loD=%d hiD=%d spec=%T%v", e.Kind, e.Name, mon.IdentKey("", e.Tags), e.I, e.F, e.Lo, e.Hi, e.LoD, e.HiD, e.Spec, e.Spec)
 }
 
 // c19After checks that the call just made produced exactly one new event on
@@ -317,6 +317,10 @@ func c19Cached(c *mon.Ctx, r *mon.Rand) {
 						h.spec = tally.DurationBuckets(r.DurationSpec(4))
 					}
 					if r.Chance(1, 6) {
+						// a caller-defined implementation of the exported Buckets interface:
+						// the children are handed the very object (type and all)
+						h.spec = c19UnitBuckets{tally.DurationBuckets(r.DurationSpec(4)), "ms"}
+					} else if r.Chance(1, 6) {
 						// a specification without bounds: a histogram like any other
 						if r.Bool() {
 							h.spec = tally.ValueBuckets{}
@@ -717,3 +721,10 @@ type c19SlowCaps struct{ rep, tag bool }
 
 func (x c19SlowCaps) Reporting() bool { runtime.Gosched(); return x.rep }
 func (x c19SlowCaps) Tagging() bool   { runtime.Gosched(); return x.tag }
+
+// c19UnitBuckets is a caller-defined tally.Buckets (a duration list that
+// carries a display unit).
+type c19UnitBuckets struct {
+	tally.DurationBuckets
+	unit string
+}
